@@ -205,3 +205,8 @@ Theorem C07_source_forward_exact : forall r a b l,
   g_forward_of r (gen_anchor r) (model_rrule r b) (Some a) (Some b) = RDone (spec_occurrences r a b).
 Proof. exact src_forward_exact. Qed.
 Print Assumptions C07_source_forward_exact.
+
+(* ---- tie C: _occurrence_to_interval as the code has it (datetime operations are the zone model's) ---- *)
+From CG Require Import Proofs.GenEq10.
+Example C07_source_occurrence_is_model : _ := g_recur_occurrence_to_interval_eq.
+Print Assumptions C07_source_occurrence_is_model.
